@@ -7,4 +7,10 @@ CHECKS = {
   "technique": TECH,
  },
 }
+CHECKS["C01"] = {
+  "text": "All paths of the real GreedySelector.fit (FPS, PCov-FPS, CUR, PCov-CUR; both directions where reachable; n_to_select None/int/float; symbolic score threshold; int/list initialisation; cold and one warm continuation) are executed on fully symbolic small matrices; on every path each derived view (selected_idx_, n_selected_, X_selected_, y_selected_, support mask, get_support variants, transform) is compared with the input sliced at the selected indices, and distinctness / range / size are decided. Bounded model checking over shapes <=5 candidates.",
+  "design_ref": "DESIGN.md 2/C01",
+  "note": "exact reals; sklearn validators stubbed; CUR family: svds/eigsh/eigh are uninterpreted functions with unit-norm / zero-line contract (validated against the real routines on every replay), obligations assume decomposed matrices nonzero and positive pick scores; two recorded genuine findings (exhausted candidates re-selected; threshold-stop truncation pinned by an existing test)",
+  "technique": TECH,
+}
 NOT_APPLICABLE = {}
